@@ -50,7 +50,10 @@ template<class Solver, class Call> static void solve_truth(const std::string &nm
     scalar r=hx::unfold(res); std::vector<scalar> Ax=hx::dense_mv(S,hx::to_vec(X)); scalar rr=0, ff=0; for (int i=0;i<n;++i) { scalar d=f[i]-Ax[i]; rr+=d*d; ff+=f[i]*f[i]; } hx::prove_eq(nm+": returned x and residual are truthful for the SCALAR system: res^2 <f,f> = ||f - A x||^2", r*r*ff, rr); }
 template<int B> static void formulations_case(const Pattern &pb, bool incomplete, int k) { hx::CaseOptions coo; coo.max_paths=10; coo.max_depth=160; hx::run_case("formulations/b"+std::to_string(B)+(incomplete?"/incomplete/":"/full/")+"k"+std::to_string(k)+"/"+pb.name, [&]() { hx::Rng rng(7); SCrs S=blocked(pb,B,incomplete,false,rng); int n=S.n; auto Sm=hx::to_amgcl(S);
     typedef be::builtin<Blk<B>> BB;
-    { typedef amgcl::make_block_solver<amgcl::amg<BB,co::aggregation,rx::spai0>, sv::cg<BB>> MBS; typename MBS::params p; p.solver.maxiter=k; p.solver.tol=scalar(0); p.solver.abstol=scalar(0); p.precond.coarse_enough=1; MBS s(*Sm,p); solve_truth<MBS>("make_block_solver<amg<aggregation,spai0>,cg>",S,[&](NV &F, NV &X){ return s(F,X); }); }
+    { typedef amgcl::make_block_solver<amgcl::amg<BB,co::aggregation,rx::spai0>, sv::cg<BB>> MBS; typename MBS::params p; p.solver.maxiter=k; p.solver.tol=scalar(0); p.solver.abstol=scalar(0); p.precond.coarse_enough=1; MBS s(*Sm,p); solve_truth<MBS>("make_block_solver<amg<aggregation,spai0>,cg>",S,[&](NV &F, NV &X){ return s(F,X); });
+      // three-argument call: the system matrix is the one the CALLER passes (here: off-diagonal entries scaled by 3/4), the stored one only built the preconditioner
+      SCrs S2=S; for (int i=0;i<n;++i) for (ptrdiff_t q=S2.ptr[i];q<S2.ptr[i+1];++q) if (S2.col[q]!=i) S2.val[q]=S2.val[q]*scalar(3)/scalar(4); auto S2m=hx::to_amgcl(S2); be::crs<Blk<B>,ptrdiff_t,ptrdiff_t> B2m(amgcl::adapter::block_matrix<Blk<B>>(*S2m));
+      solve_truth<MBS>("make_block_solver three-argument call solves the system of the matrix passed by the caller",S2,[&](NV &F, NV &X){ return s(B2m,F,X); }); }
     { typedef amgcl::make_solver<amgcl::amg<BB,co::smoothed_aggregation,rx::ilu0>, sv::bicgstab<BB>> BS; typename BS::params p; p.solver.maxiter=k; p.solver.tol=scalar(0); p.solver.abstol=scalar(0); p.precond.coarse_enough=1; BS s(amgcl::adapter::block_matrix<Blk<B>>(*Sm),p);
       solve_truth<BS>("block value type through adapter::block_matrix (amg<smoothed_aggregation,ilu0>, bicgstab)",S,[&](NV &F, NV &X){ auto Fb=be::reinterpret_as_rhs<Blk<B>>(F); auto Xb=be::reinterpret_as_rhs<Blk<B>>(X); return s(Fb,Xb); }); }
     { typedef amgcl::make_solver<amgcl::amg<SB,co::aggregation,rx::as_block<BB,rx::ilu0>::template type>, sv::cg<SB>> AS; typename AS::params p; p.solver.maxiter=k; p.solver.tol=scalar(0); p.solver.abstol=scalar(0); p.precond.coarse_enough=B; p.precond.coarsening.aggr.block_size=B; AS s(*Sm,p); solve_truth<AS>("scalar backend with relaxation::as_block<ilu0>",S,[&](NV &F, NV &X){ return s(F,X); }); }
